@@ -281,23 +281,79 @@ func checkPublisher(p *Prog, r *Roles, lr *leaderRoles, res *Result) {
 		return
 	}
 	pub := pubs[0]
+	var pubLeaderFlag ssa.Value // when leadership is tested through a "(revision, ok)" helper: its flag in the publisher
 	revField := p.structField("pkg/server/service/revision", "LeaderRevision", "Revision")
 	for _, st := range p.fields().stores[revField] {
 		if st.Parent() != pub {
 			continue
 		}
-		// the answer may be built by a helper that is handed the revision: the publisher is then its (only) caller
+		// the answer may be built by helpers that are handed the revision (body builder, reply function): the publisher
+		// is the function in which the revision is no longer a parameter
 		val, at := ssa.Value(st.Val), ssa.Instruction(st)
-		if prm, isPrm := resolve(val).(*ssa.Parameter); isPrm && prm.Parent() == pub {
-			if sites, ok := p.liftSites(pub); ok && len(sites) == 1 {
-				if cs, isCall := sites[0].(ssa.CallInstruction); isCall && paramIndex(prm) < len(cs.Common().Args) {
-					val, at = cs.Common().Args[paramIndex(prm)], sites[0]
-					pub = at.Parent()
+		for d := 0; d < 3; d++ {
+			prm, isPrm := resolve(val).(*ssa.Parameter)
+			if !isPrm || prm.Parent() != at.Parent() {
+				break
+			}
+			sites, ok := p.liftSites(at.Parent())
+			if !ok || len(sites) != 1 {
+				break
+			}
+			cs, isCall := sites[0].(ssa.CallInstruction)
+			if !isCall || paramIndex(prm) >= len(cs.Common().Args) {
+				break
+			}
+			val, at = cs.Common().Args[paramIndex(prm)], sites[0]
+		}
+		pub = at.Parent()
+		construct := funcName(pub) + ": published revision"
+		c, idx, ok := extractOf(val)
+		// .. or comes out of a helper "(revision, ok)" that samples it under leadership and says so: every return of the
+		// helper hands back either the committed revision read under IsLeader()==true, or zero together with false,
+		// and the publisher has tested the flag
+		if ok && !p.isCallToMethod(c, r.BGetCur) {
+			if h := c.Common().StaticCallee(); h != nil && h.Blocks != nil && h.Pkg == pub.Pkg {
+				flagIdx := -1
+				for j := 0; j < h.Signature.Results().Len(); j++ {
+					if bt, isB := h.Signature.Results().At(j).Type().Underlying().(*types.Basic); isB && bt.Kind() == types.Bool {
+						flagIdx = j
+					}
+				}
+				good := flagIdx >= 0
+				var sample *ssa.Call
+				for _, b := range h.Blocks {
+					ret, isRet := b.Instrs[len(b.Instrs)-1].(*ssa.Return)
+					if !isRet || !good {
+						continue
+					}
+					rc, _, isCall := extractOf(ret.Results[idx])
+					fl, isConst := resolve(ret.Results[flagIdx]).(*ssa.Const)
+					switch {
+					case isCall && p.isCallToMethod(rc, r.BGetCur) && isConst && fl.Value.String() == "true" && lr.leaderKnown(p, rc.Block(), false):
+						sample = rc
+					case isZeroConst(ret.Results[idx]) && isConst && fl.Value.String() == "false":
+					default:
+						good = false
+					}
+				}
+				flagTested := false
+				var fx ssa.Value
+				if good && sample != nil {
+					fx = extractsOf(c)[flagIdx]
+					for _, cf := range dominatingFacts(at.Block()) {
+						if fx != nil && cf.Raw == fx && cf.Want {
+							flagTested = true
+						}
+					}
+				}
+				if good && sample != nil && flagTested {
+					res.ok("C18-R5", construct, p.pos(at.Pos()), "committed revision read under IsLeader()==true inside "+funcName(h)+", published only when its flag is true")
+					// the non-leader branch of the publisher is the branch on which the flag is false
+					pubLeaderFlag = fx
+					continue
 				}
 			}
 		}
-		construct := funcName(pub) + ": published revision"
-		c, _, ok := extractOf(val)
 		if !ok || !(p.isCallToMethod(c, r.BGetCur)) {
 			res.bad("C18-R5", construct, p.pos(at.Pos()), "the published revision is not Backend.GetCurrentRevision()")
 			continue
@@ -320,7 +376,8 @@ func checkPublisher(p *Prog, r *Roles, lr *leaderRoles, res *Result) {
 		}
 		for s := 0; s < 2; s++ {
 			cf := edgeFact(edge{b, s})
-			if cf.Call == nil || !p.isCallToMethod(cf.Call, lr.isLeader) || cf.Want {
+			viaFlag := pubLeaderFlag != nil && cf.Raw == pubLeaderFlag && !cf.Want
+			if !viaFlag && (cf.Call == nil || !p.isCallToMethod(cf.Call, lr.isLeader) || cf.Want) {
 				continue
 			}
 			// follow from the successor: first invoke on http.ResponseWriter
